@@ -340,7 +340,12 @@ func (d *Driver) ReconcileAll() (int, int) {
 		}
 	}
 	st := d.C.Project()
+	// all four reconcilers take part in a fair round
+	for _, x := range st.Settings {
+		count(d.Apply(Action{Op: "SettingReconcile", Key: x.NS + "/" + x.Name}))
+	}
 	for _, e := range st.EDS {
+		count(d.Apply(Action{Op: "PodTemplateReconcile", Key: e.Key}))
 		count(d.Apply(Action{Op: "EDSReconcile", Key: e.Key}))
 	}
 	st = d.C.Project()
